@@ -31,10 +31,10 @@ RULES = [
     ("R-foriter", "for node in unsorted_nodes {", "let mut vx_it = unsorted_nodes ; loop { let vx_nx = vx_it . next ( ) ; if vx_nx . is_none ( ) { break ; } let node = vx_nx . unwrap ( ) ;", "for over a generic iterator -> its definition (loop over next() until None)"),
     ("R-foriter", "for ( src , dst ) in sorted_nodes . zip ( $z ) {", "let mut vx_it = sorted_nodes . zip ( $z ) ; loop { let vx_nx = vx_it . next ( ) ; if vx_nx . is_none ( ) { break ; } let ( src , dst ) = vx_nx . unwrap ( ) ;", "for over a generic iterator -> its definition (loop over next() until None)"),
     ("R-abs", "let mut assorted_iter = assorted_bucket . iter ( ) . peekable ( ) ; $rest }", "vx_abs_assorted ( buckets , self_node_id ) }", "ABSTRACTION: the tail of precompute_assorted_nodes (peekable + enumerate over the last bucket) replaced by an opaque stand-in; only the early return for a full-depth table is verified"),
-    ("R-clpat", ". filter ( | ( $pat ) | $b )", ". filter ( | p | let ( $pat ) = p ; $b )", "closure pattern parameter -> named parameter + leading let (Verus needs a named parameter to state the closure's ensures)"),
-    ("R-clpat", ". map ( | ( $pat ) | $b )", ". map ( | p | let ( $pat ) = p ; $b )", "closure pattern parameter -> named parameter + leading let"),
-    ("R-clpat", ". any ( | ( $pat ) | $b )", ". any ( | p | let ( $pat ) = p ; $b )", "closure pattern parameter -> named parameter + leading let"),
-    ("R-clpat", ". binary_search_by ( | ( $pat ) | $b )", ". binary_search_by ( | p | let ( $pat ) = p ; $b )", "closure pattern parameter -> named parameter + leading let"),
+    ("R-clpat", ". filter ( | ( $pat ) | $b )", ". filter ( | p | { let ( $pat ) = p ; $b } )", "closure pattern parameter -> named parameter + leading let (Verus needs a named parameter to state the closure's ensures)"),
+    ("R-clpat", ". map ( | ( $pat ) | $b )", ". map ( | p | { let ( $pat ) = p ; $b } )", "closure pattern parameter -> named parameter + leading let"),
+    ("R-clpat", ". any ( | ( $pat ) | $b )", ". any ( | p | { let ( $pat ) = p ; $b } )", "closure pattern parameter -> named parameter + leading let"),
+    ("R-clpat", ". binary_search_by ( | ( $pat ) | $b )", ". binary_search_by ( | p | { let ( $pat ) = p ; $b } )", "closure pattern parameter -> named parameter + leading let"),
     ("R-extconst", "SocketAddr :: from ( ( Ipv4Addr :: UNSPECIFIED , 0 ) )", "vx_unspecified_addr ( )", "associated const of an external type (unsupported by Verus) -> opaque stand-in returning a SocketAddr (the value is a placeholder for unused slots)"),
     ("R-ordmin", "( bootstrap_attempt + 1 ) . min ( 9 )", "vx_min_u64 ( bootstrap_attempt + 1 , 9 )", "Ord::min is a provided trait method (no assume_specification possible): verified helper returning the smaller argument"),
     ("R-ordmax", "NODE_TIMEOUT . max ( $b )", "vx_duration_max ( NODE_TIMEOUT , $b )", "Ord::max is a provided trait method (Verus accepts no assume_specification for it): stand-in returning one of its arguments"),
